@@ -23,6 +23,9 @@ func init() {
 	rt.Register("C01_repair_sym", VerifHarness_C01_repair_sym)
 	rt.Register("C16_search_sym", VerifHarness_C16_search_sym)
 	rt.Register("C16_two_files", VerifHarness_C16_two_files)
+	rt.Register("C14_many_identical", VerifHarness_C14_many_identical)
+	rt.Register("C16_big_copy", VerifHarness_C16_big_copy)
+	rt.Register("C02_big_garbage_parity", VerifHarness_C02_big_garbage_parity)
 }
 
 const (
@@ -392,6 +395,33 @@ func VerifHarness_C16_two_files() {
 	rt.Assert(res.ShardCounts.UsableDataShardCount >= int(safelyFindableAny(currentFiles(s), allSlices)), "every slice that survives at a non-overlapped offset in some protected file is counted usable")
 }
 
+// Two large files with the same content (slice size 16384), one of them
+// lost or shifted: every slice of the lost copy is found in the surviving one
+// and costs no recovery block.
+func VerifHarness_C16_big_copy() {
+	useFileIDLessSpec()
+	n := []int{65535, 65536, 65537, 131072}[rt.Choice("size", 4)]
+	data := make([]byte, n)
+	for i := range data {
+		data[i] = byte(i*13 + i/255 + 3)
+	}
+	s := &scenario{fs: newSymFS(), parity: 1}
+	s.orig = [][]byte{data, data}
+	s.paths = []string{fileName(0), fileName(1)}
+	s.fs.put(fileName(0), append([]byte(nil), data...))
+	s.fs.put(fileName(1), append([]byte(nil), data...))
+	err := create(s.fs, scnIndex, s.paths, CreateOptions{SliceByteCount: 16384, NumParityShards: 1, NumGoroutines: 1})
+	rt.Assert(err == nil, "Create succeeds on the scenario")
+	lost := rt.Choice("lost", 2)
+	s.fs.remove(s.paths[lost])
+	slices := 2 * ((n + 16383) / 16384)
+	res, verr := verify(s.fs, scnIndex, VerifyOptions{NumGoroutines: 1})
+	rt.Assert(verr == nil, "Verify returns a result")
+	rt.Assert(res.ShardCounts.UsableDataShardCount == slices && res.ShardCounts.UnusableDataShardCount == 0, "every slice of the lost copy is found in the surviving copy")
+	_, rerr := checkRepair(s, false, 1)
+	rt.Assert(rerr == nil, "Repair restores the lost copy without needing more than the one block")
+}
+
 // expectedLost is the number of protected slices a structured damage destroys
 // (an upper bound on what must be reconstructed); -1 = no claim.
 func expectedLost(x []byte, kind int) int {
@@ -487,6 +517,42 @@ func replaceRecoveryData(data []byte, tag string) []byte {
 	return out
 }
 
+// The same beyond the 16k hash: a 16388-byte file (slice size 8192) that lost
+// its last slice, and a recovery block whose first byte was altered (packet
+// hash recomputed): what Repair would reconstruct differs from the original
+// only at offset 16384.
+func VerifHarness_C02_big_garbage_parity() {
+	useFileIDLessSpec()
+	const n = 16388
+	data := make([]byte, n)
+	for i := range data {
+		data[i] = byte(i*7 + i/251 + 1)
+	}
+	s := &scenario{fs: newSymFS(), parity: 1}
+	s.orig = [][]byte{data}
+	s.paths = []string{fileName(0)}
+	s.fs.put(fileName(0), append([]byte(nil), data...))
+	err := create(s.fs, scnIndex, s.paths, CreateOptions{SliceByteCount: 8192, NumParityShards: 1, NumGoroutines: 1})
+	rt.Assert(err == nil, "Create succeeds on the scenario")
+	vol := scnDir + "/s.vol00+01.par2"
+	out := append([]byte(nil), s.fs.files[vol]...)
+	for off := 0; off+64 <= len(out); {
+		m := int(le64(out[off+8 : off+16]))
+		if refType(out[off+48:off+64]) == "PAR 2.0\x00RecvSlic" {
+			flip := rt.Byte("flip")
+			rt.Assume(flip != 0)
+			out[off+68] ^= flip
+			h := md5.Sum(out[off+32 : off+m])
+			copy(out[off+16:off+32], h[:])
+		}
+		off += m
+	}
+	s.fs.put(vol, out)
+	s.fs.put(fileName(0), append([]byte(nil), data[:16384]...))
+	_, rerr := checkRepair(s, rt.Bool("doubleCheck"), 1)
+	rt.Assert(rerr != nil, "the altered block cannot restore the file: Repair reports an error")
+}
+
 func VerifHarness_C02_garbage_parity() {
 	s := buildArchiveMode(oneFileLens(), 1, 1, contentChoice())
 	vol := scnDir + "/s.vol00+01.par2"
@@ -550,6 +616,27 @@ func VerifHarness_C14_step() {
 		_ = err2
 		rt.Reach("succeeded")
 	}
+}
+
+// More than 256 identical slices (a sparse-file-like run): the set verifies
+// clean, Repair of the intact set writes nothing, and a lost second file is
+// restored while the intact one is left alone.
+func VerifHarness_C14_many_identical() {
+	n := []int{255, 256, 257, 300}[rt.Choice("slices", 4)]
+	s := buildArchiveMode([]int{n * scnSlice, 3}, 1, 1, contentDuplicate)
+	if rt.Bool("loseSecond") {
+		s.fs.remove(s.paths[1])
+	}
+	res, err := checkRepair(s, false, 1)
+	rt.Assert(err == nil, "damage within recovery capacity: Repair succeeds")
+	for _, p := range res.RepairedPaths {
+		rt.Assert(p != s.paths[0], "Repair does not rewrite a file that was intact")
+	}
+	w1 := len(s.fs.writes)
+	v, verr := verify(s.fs, scnIndex, VerifyOptions{NumGoroutines: 1})
+	rt.Assert(verr == nil && !v.ShardCounts.RepairNeeded(), "after a successful Repair, Verify is clean")
+	_, _ = repair(s.fs, scnIndex, RepairOptions{NumGoroutines: 1})
+	rt.Assert(len(s.fs.writes) == w1, "a further Repair rewrites nothing")
 }
 
 // C20, library side: a set that needs repair and cannot be repaired makes
